@@ -112,6 +112,8 @@ def run(rng, tier, res=None):
         A = np.array([[rng.choice([rng.gauss(0, 3), float(rng.randint(-3, 3))]) for _ in range(d)] for _ in range(n)])
         if rng.random() < 0.2:
             A[:, 0] = 2.5          # a constant column (std 0): outside the property's claim
+        if rng.random() < 0.3:
+            A[:, -1] *= rng.choice([1e-9, 1e-12, 1e6])   # non-constant columns on a very small / large scale
         out = G.normalize(A.copy())
         for j in range(d):
             col = [A[i][j] for i in range(n)]
